@@ -1,6 +1,7 @@
 package h
 
 import (
+	"context"
 	"fmt"
 	"io"
 	"os"
@@ -8,6 +9,8 @@ import (
 	"strconv"
 	"strings"
 	"time"
+
+	"github.com/mgtv-tech/redis-GunYu/syncer"
 
 	"verifsim/rdbgen"
 	"verifsim/simredis"
@@ -148,6 +151,17 @@ func (c *c04Run) replay(f c04Fault) *Violation {
 	if f.mode == "truncate" && f.truncAt == 0 {
 		ss.pipe.CloseWith(c.eof)
 	}
+	rootBefore := int64(-1)
+	if c.cfg.Bisync {
+		// the state the run loop of a running tool is in: an earlier full sync left a root checkpoint (below this
+		// snapshot's offset: the source answered the PSYNC with a new full resync under the same replication id), the
+		// output was asked for its start point before the round, and will be asked again on the same object after it
+		rootBefore = c.cfg.Left - 1 - c.cfg.Left/2
+		ss.srv.SetHash(0, ss.cpName, map[string]string{
+			ss.runID + "_runid": ss.runID, ss.runID + "_version": "1", ss.runID + "_offset": strconv.FormatInt(rootBefore, 10),
+			ss.runID + "_mtime": strconv.FormatInt(time.Now().UnixNano(), 10)})
+		ss.preStart = true
+	}
 	step := 0
 	ss.onStep = func() bool {
 		step++
@@ -238,6 +252,36 @@ func (c *c04Run) replay(f c04Fault) *Violation {
 		}
 	}
 	cp, written := c.checkpointWritten(ss)
+	if incomplete != nil && c.cfg.Bisync && done && !crashed && err != nil && ss.preErr == nil {
+		// the run loop's next round, same process, same output object: where does it resume?
+		var sp syncer.StartPoint
+		var sperr error
+		asked := make(chan struct{})
+		go func() {
+			defer close(asked)
+			sp, sperr = ss.ro.StartPoint(context.Background(), []string{ss.runID})
+		}()
+		for i := 0; i < 2000; i++ {
+			r.Settle()
+			select {
+			case <-asked:
+				i = 1 << 30
+			default:
+				ss.drainPending(100)
+				r.Advance(10 * time.Millisecond)
+			}
+		}
+		select {
+		case <-asked:
+			simrt.Probe("c04_next_round_start_point_asked")
+			if sperr == nil && sp.Offset >= c.cfg.Left {
+				return fail("C04.recorded", "the next round of the same process resumes behind the snapshot although not every entry was applied ("+f.mode+")",
+					"Send returned %v; the target does not hold the snapshot (%s); asked again, the same output object answers start point %d (snapshot offset %d, stored root checkpoint %d, first answer %d): the interrupted replay is treated as a completed full sync", err, cut(incomplete.Rule[4:]+": "+incomplete.Msg, 300), sp.Offset, c.cfg.Left, rootBefore, ss.preSP.Offset)
+			}
+		default:
+			// the target is gone for good (severed): nothing to ask
+		}
+	}
 	if incomplete != nil {
 		what := incomplete.Rule[4:] + ": " + incomplete.Msg
 		if written {
@@ -310,6 +354,7 @@ func genC04Cfg(g *simrt.Chooser, stratum string) (SnapCfg, rdbgen.GenOpts) {
 	if g.Choose("bisync", 5) == 0 {
 		c.Bisync = true
 		c.Parallel = 1 // see C20: unit numbering shared by the workers is not replayable
+		c.BisyncMode = []string{"sync", "pipeline", "parallel"}[g.Choose("bisyncmode", 3)]
 	}
 	o.MaxKeys = 1 + g.Choose("maxkeys", 40)
 	if (stratum == "truncate" || stratum == "bitflip") && g.Choose("tiny", 4) != 0 {
